@@ -43,13 +43,17 @@ def holdsC20 (k : Kind) (base : Xml) (ex : List (String × Exp)) : Bool :=
          | _, _ => false)
     | _, _ => false
 
-/-- the IDs `inspect()` must mention: every named source and every carried element's ID -/
+/-- the IDs `inspect()` must mention: every named source and every carried element's ID;
+    for a running-order document, every story of the running order -/
 def mentionIds (k : Kind) (base : Xml) : List Key :=
+  if k == .RunningOrder then (base.findall "story").map (keyOf "story") else
   let nm := namedOf k base
   nm.sources ++ nm.carried.map (keyOf (levelTag k))
 
-/-- shaped, plus the roID that `RunningOrderEnd.inspect` prints -/
+/-- shaped, plus the roID that `RunningOrderEnd.inspect` prints; for a running-order document, the
+    `roSlug` that `RunningOrder.inspect` dereferences (`self.base_tag.find('roSlug').text`) -/
 def shapedInspect (k : Kind) (m : Xml) : Bool :=
+  if k == .RunningOrder then ((m.find "roCreate").bind (·.find "roSlug")).isSome else
   shaped k m &&
   (k != .RunningOrderEnd || ((m.find "roDelete").bind (·.find "roID")).isSome)
 
